@@ -434,6 +434,18 @@ class Net:
         self.forms = []
         self.shared = {}
         v0 = w.vocabs[0]
+        self.history = "none"
+        if form_seed % 3 == 1:
+            # call history: an action-selection block that failed earlier in this process must leave nothing behind
+            self.history = "failed action-selection block"
+            with spa.Network():
+                st0 = spa.State(v0, subdimensions=1)
+                try:
+                    with spa.ActionSelection():
+                        spa.ifmax(0.5, spa.sym.A >> st0)
+                        raise RuntimeError("body fails")
+                except RuntimeError:
+                    pass
         with self.model:
             self.model.config[nengo.Ensemble].neuron_type = nengo.Direct()
             self.src = []
@@ -667,6 +679,13 @@ def plan(al, d, seed, quick):
     groups += [([("rinv", x1)], ("P", 0), "shared"), ([x1], ("P", 0), "shared"), ([("mul", x1, ("sym", 1))], ("P", 0), "shared"),
                ([("neg", y1)], "S", "shared"), ([y1, ("mul", y1, ("ssrc", 1))], "S", "shared"),
                ([("mul", ("sym", 2), z1)], ("P", 0), "shared"), ([z1, ("dot", z1, ("sym", 1))] if False else [z1], ("P", 0), "shared")]
+    # constants that need all their digits (1/3, 2/7, 1234567.5): a symbol scaled by a number is re-parsed from its printed form
+    third, sev, many = ("num", 1, 3, False, "float"), ("num", 2, 7, True, "np64"), ("num", 2469135, 2, False, "float")
+    groups += [([("mul", ("sym", 0), third)], ("P", 0), "digits"), ([("mul", sev, ("sym", 1))], ("P", 0), "digits"),
+               ([("sub", ("mul", third, ("sym", 0)), ("div", ("sym", 1), ("num", 7, 1, False, "int")))], ("P", 0), "digits"),
+               ([("mul", ("src", 0), ("mul", ("sym", 1), third))], ("P", 0), "digits"),
+               ([("mul", ("mul", ("sym", 2), many), ("src", 1))], ("P", 0), "digits"),
+               ([("mul", ("ssrc", 0), ("mul", ("symT", 0), sev))], ("P", 0), "digits")]
     if d in (4, 16) or not quick:
         for e in exhaustive(al, 3, 2):
             if quick and depth(e) > 1 and (d == 16 or rng.random() < 0.5):
@@ -726,7 +745,7 @@ def _work(args):
             stm = [strip(e) for e in stm]
             texts = [w.text(e) for e in stm]
             base = {"alg": al, "d": d, "statements": texts, "sources": {"src": w.src, "ssrc": w.ssrc, "names": w.names},
-                    "source_forms": net.forms, "origin": origin}
+                    "source_forms": net.forms, "origin": origin, "history": net.history}
             key = (al, d, tuple(texts), tuple(map(tuple, w.src)), tuple(w.ssrc))
             if isinstance(pi, tuple):
                 obs_t = c.obs_term((pi[0], pi[1]), algs.enc_vec)
